@@ -14,7 +14,9 @@ for V in ${VARIANTS:-a b}; do
 import sys, xml.etree.ElementTree as ET
 for ts in ET.parse(sys.argv[1]).getroot().iter('testsuite'):
     a=ts.attrib; t=int(a['tests']); f=int(a['failures']); e=int(a['errors']); s=int(a['skipped'])
-    print(f"passed={t-f-e-s} failed={f} errors={e}")
+    print(f"passed={t-f-e-s} failed={f} errors={e}", end="")
+bad=[tc.attrib.get('name') for tc in ET.parse(sys.argv[1]).getroot().iter('testcase') if tc.find('failure') is not None or tc.find('error') is not None]
+print((" failing: " + ",".join(bad)) if bad else "")
 P
 )
   rm -rf "$D"
